@@ -1,0 +1,70 @@
+//go:build verif
+
+// Package verifhook re-exports, for the verification harness in /verif only,
+// parts of the internal package that another module cannot import. It is
+// compiled only with the "verif" build tag and changes no behaviour.
+package verifhook
+
+import (
+	"github.com/emersion/go-webdav/internal"
+)
+
+type (
+	Depth                = internal.Depth
+	HTTPError            = internal.HTTPError
+	Status               = internal.Status
+	Href                 = internal.Href
+	ETag                 = internal.ETag
+	Time                 = internal.Time
+	RawXMLValue          = internal.RawXMLValue
+	MultiStatus          = internal.MultiStatus
+	Response             = internal.Response
+	PropStat             = internal.PropStat
+	Prop                 = internal.Prop
+	PropFind             = internal.PropFind
+	PropFindFunc         = internal.PropFindFunc
+	Error                = internal.Error
+	Location             = internal.Location
+	ResourceType         = internal.ResourceType
+	GetContentLength     = internal.GetContentLength
+	GetContentType       = internal.GetContentType
+	GetLastModified      = internal.GetLastModified
+	GetETag              = internal.GetETag
+	DisplayName          = internal.DisplayName
+	CurrentUserPrincipal = internal.CurrentUserPrincipal
+	PropertyUpdate       = internal.PropertyUpdate
+	SyncCollectionQuery  = internal.SyncCollectionQuery
+	Limit                = internal.Limit
+	Client               = internal.Client
+	Handler              = internal.Handler
+	Backend              = internal.Backend
+)
+
+const (
+	DepthZero     = internal.DepthZero
+	DepthOne      = internal.DepthOne
+	DepthInfinity = internal.DepthInfinity
+)
+
+var (
+	ParseDepth          = internal.ParseDepth
+	ParseOverwrite      = internal.ParseOverwrite
+	FormatOverwrite     = internal.FormatOverwrite
+	HTTPErrorFromError  = internal.HTTPErrorFromError
+	HTTPErrorf          = internal.HTTPErrorf
+	IsNotFound          = internal.IsNotFound
+	ServeError          = internal.ServeError
+	ServeMultiStatus    = internal.ServeMultiStatus
+	DecodeXMLRequest    = internal.DecodeXMLRequest
+	NewPropFindResponse = internal.NewPropFindResponse
+	PropFindValue       = internal.PropFindValue
+	NewMultiStatus      = internal.NewMultiStatus
+	NewOKResponse       = internal.NewOKResponse
+	NewErrorResponse    = internal.NewErrorResponse
+	NewRawXMLElement    = internal.NewRawXMLElement
+	EncodeRawXMLElement = internal.EncodeRawXMLElement
+	NewResourceType     = internal.NewResourceType
+	NewPropNamePropFind = internal.NewPropNamePropFind
+	EncodeProp          = internal.EncodeProp
+	NewClient           = internal.NewClient
+)
